@@ -213,7 +213,7 @@ def removeExisting (t : Trie) (k : Bytes) : Trie × Option Bytes :=
 
 def ofList (kvs : List (Bytes × Bytes)) : Trie := kvs.foldl (fun t kv => t.insert kv.1 kv.2) .nil
 
-/-- Number of nodes with at least two key levels below: used by drivers as a size measure. -/
+/-- Height of the tree in nodes (a leaf has height 1): used by drivers as a size measure. -/
 def depth : Trie → Nat
   | .nil => 0
   | .leaf _ _ => 1
